@@ -28,7 +28,7 @@ def case_grid(tier, seed, which):
     add("basic", 3, 2, 2500, 15, 200, 20, 8, via="lib", n=rep)
     add("rc", 4, 2, 1500, 13, 150, 18, 4, n=rep)
     add("dup", 5, 2, 1200, 11, 100, 15, 2, n=rep)
-    add("iupac", 4, 2, 1500, 12, 80, 16, 3, case=2, n=rep)
+    add("iupac", 4, 3, 1500, 12, 80, 16, 3, case=2, n=rep)              # 3 contigs: symbol palettes 5..15 / <= 6 / <= 5 (packing boundaries)
     add("iupac", 4, 1, 2500, 10, 60, 15, 16, crlf=True, width=1000, n=rep)
     add("short", 3, 2, 800, 15, 200, 20, 2, n=rep)
     add("trunc", 6, 2, 1400, 11, 100, 15, 3, n=rep)
